@@ -381,7 +381,7 @@ def c06(run):
 def _scaled_systems(run):
     """Large magnitudes for the analyses themselves.  R3: the defining equations of the preemptive / non-preemptive /
     floating FP analyses, of preemptive EDF and of FIFO are homogeneous (MCAnalyses, invariant Homogeneous, K = 2, 3 on
-    41 472 configurations).  Hence the bound of a system scaled by K = 2^33..2^50 must be K times the bound of the small
+    41 472 configurations).  Hence the bound of a system scaled by an odd K between 2^40 and 2^55 must be K times the bound of the small
     system: the small system is validated equationally by TLC, the relation by Apalache over unbounded integers."""
     mc_stage(run, "homogeneity", "MCAnalyses.tla", "MCAnalysesHomog.cfg", workers=16)
     wd = run.sub("scaled-systems")
